@@ -168,6 +168,16 @@ Section Top.
     - apply init_pinv. intros s. apply finv_new.
     - now rewrite init_plive.
   Qed.
+
+  (** the root orders of a reachable binomial heap are the positions of the one-bits of [n] *)
+  Theorem binomial_bits sizes ops :
+    well_scoped K V true (all_live sizes) ops = true ->
+    forall i b, nth_error (p_final K V cmp eqv (p_init K V Binomial sizes) ops) i = Some (Some (HN b)) ->
+      n_n K V b = sum2 (ords (n_head K V b)) /\ Sorted.StronglySorted lt (ords (n_head K V b)).
+  Proof.
+    intros Hws i b Hi. destruct (binomial_invariant sizes ops Hws i _ Hi) as [[Hh Hn] Hs].
+    split; [apply nshape_size; assumption | exact (proj1 Hs)].
+  Qed.
 End Top.
 
 (** min and max orientation *)
